@@ -1,4 +1,46 @@
 //! auxiliary sub-commands (golden generation, probes ...)
-pub fn dispatch(_args: &[String]) -> Option<i32> {
-    None
+use crate::gen::version as gv;
+use crate::model::version::*;
+use proptest::strategy::{Strategy, ValueTree};
+use proptest::test_runner::{Config, RngSeed, TestRunner};
+
+pub fn runner(seed: u64) -> TestRunner {
+    TestRunner::new(Config { rng_seed: RngSeed::Fixed(seed), failure_persistence: None, ..Config::default() })
+}
+
+fn js_safe(v: &MVersion) -> bool {
+    // node loses precision for numeric identifiers >= 2^53
+    v.pre.iter().chain(v.build.iter()).all(|i| match i {
+        MId::Num(n) => *n < (1u64 << 53),
+        MId::Str(_) => true,
+    }) && v.text().len() <= 256
+}
+
+pub fn dispatch(args: &[String]) -> Option<i32> {
+    match args[0].as_str() {
+        "gen-version-pairs" => {
+            // vcheck gen-version-pairs N SEED  -> "a\tb" lines for node
+            let n: usize = args[1].parse().unwrap();
+            let seed: u64 = args[2].parse().unwrap();
+            let mut r = runner(seed);
+            let strat = gv::related(2);
+            let mut k = 0;
+            // the exhaustive diff scope first
+            let sc = crate::props::c16::scope();
+            for a in sc.iter().step_by(3) {
+                for b in sc.iter().step_by(5) {
+                    println!("{}\t{}", a.text(), b.text());
+                }
+            }
+            while k < n {
+                let vs = strat.new_tree(&mut r).unwrap().current();
+                if js_safe(&vs[0]) && js_safe(&vs[1]) {
+                    println!("{}\t{}", vs[0].text(), vs[1].text());
+                    k += 1;
+                }
+            }
+            Some(0)
+        }
+        _ => None,
+    }
 }
